@@ -298,6 +298,7 @@ def source_constants():
         "TOOM3_MEM_A": ("integer/src/mul/toom_3.rs", r"let num_words = (\d+) \* n \+ \d+ \* \(math::ceil_log2\(n\) as usize\);", 4),
         "TOOM3_MEM_B": ("integer/src/mul/toom_3.rs", r"let num_words = \d+ \* n \+ (\d+) \* \(math::ceil_log2\(n\) as usize\);", 13),
         "GCD_MIN_DWORD_GUESS_LEN": ("integer/src/gcd/lehmer.rs", r"pub const MIN_DWORD_GUESS_LEN: usize = (\d+);", 300),
+        "MUL_SIMPLE_CHUNK_LEN": ("integer/src/mul/simple.rs", r"const CHUNK_LEN: usize = (\d+);", 1024),
         "KARATSUBA_MIN_LEN": ("integer/src/mul/karatsuba.rs", r"pub const MIN_LEN: usize = (\d+);", 3),
         "TOOM3_MIN_LEN": ("integer/src/mul/toom_3.rs", r"pub const MIN_LEN: usize = (\d+);", 16),
     }
